@@ -88,6 +88,9 @@ func ruleC07Contexts(c *ctx.Ctx, r *core.Reporter) {
 	r.Begin("C07.contexts", "F-WHO", "every copying context converts through the cloning helper; array/struct assignment emits $clone or T.copy; uses of the non-cloning helper are inventoried against the reviewed contexts", 12)
 	cloning := callSitesOf(c, "translateImplicitConversionWithCloning")
 	for _, m := range mustCloneSites {
+		if fd := followDelegation(c, c.FuncDecl("compiler", m.fn)); fd != nil {
+			m.fn = ctx.FuncName(fd)
+		}
 		n := 0
 		site := "compiler"
 		for _, s := range cloning {
@@ -122,8 +125,8 @@ func ruleC07Contexts(c *ctx.Ctx, r *core.Reporter) {
 		})
 		r.Check(ok, "cloning-helper:clones-array-and-struct", c.Pos(fd.Pos()), "translateImplicitConversionWithCloning emits $clone for both *types.Struct and *types.Array destinations")
 	}
-	// translateAssign: Array|Struct destinations copy
-	if fd := c.FuncDecl("compiler", "funcContext.translateAssign"); fd != nil {
+	// translateAssign: Array|Struct destinations copy (follow a pure delegation wrapper)
+	if fd := followDelegation(c, c.FuncDecl("compiler", "funcContext.translateAssign")); fd != nil {
 		var arm *ast.CaseClause
 		ast.Inspect(fd.Body, func(n ast.Node) bool {
 			if cc, ok := n.(*ast.CaseClause); ok && len(cc.List) == 2 {
@@ -163,6 +166,18 @@ func ruleC07Contexts(c *ctx.Ctx, r *core.Reporter) {
 				return true
 			})
 			r.Check(generic != token.NoPos && arm.Pos() < generic, "assign:copy-before-plain-store", c.Pos(arm.Pos()), "the copying arm is evaluated before the plain `lhs = rhs` translations")
+			// the copying arm may only be bypassed by the reviewed conditions: every enclosing `if` of the arm's
+			// switch is the single negated reflect.Value flag
+			extra := ""
+			for _, cd := range enclosingConds(fd.Body, arm.Pos()) {
+				if strings.HasPrefix(cd, "case ") {
+					continue
+				}
+				if squash(cd) != "!isReflectValue" {
+					extra = cd
+				}
+			}
+			r.Check(extra == "", "assign:no-extra-bypass", c.Pos(arm.Pos()), ternary(extra == "", "the copy is skipped only for reflect.Value", fmt.Sprintf("the copying arm is additionally guarded by %q: under that condition an array or struct is stored by reference, so pointers taken to the destination earlier no longer observe it (and the source is aliased)", extra)))
 			// the only bypasses are the reviewed ones
 			src := nodeString(c, fd.Body)
 			r.Check(strings.Contains(src, `named.Obj().Pkg().Path() == "reflect" && named.Obj().Name() == "Value"`), "assign:bypass:reflect.Value", c.Pos(fd.Pos()), "the only named type exempt from copying is reflect.Value (reviewed performance exception)")
@@ -328,4 +343,28 @@ func ruleC07Deep(c *ctx.Ctx, r *core.Reporter) {
 		ok := strings.Contains(src, p[1]+".zero()") && strings.Contains(src, p[1]+".copy(clone,"+p[0]+")") && strings.Contains(src, "returnclone")
 		r.Check(ok, "clone:zero+copy", cl.Pos(), "$clone(src, type) returns type.zero() filled by type.copy(clone, src)")
 	}
+}
+
+// followDelegation: if fd's body is a single `return fc.other(...)`, analyse that method instead.
+func followDelegation(c *ctx.Ctx, fd *ast.FuncDecl) *ast.FuncDecl {
+	for i := 0; i < 3 && fd != nil && fd.Body != nil && len(fd.Body.List) == 1; i++ {
+		rs, ok := fd.Body.List[0].(*ast.ReturnStmt)
+		if !ok || len(rs.Results) != 1 {
+			break
+		}
+		ce, ok := rs.Results[0].(*ast.CallExpr)
+		if !ok {
+			break
+		}
+		sel, ok := ce.Fun.(*ast.SelectorExpr)
+		if !ok {
+			break
+		}
+		next := c.FuncDecl("compiler", "funcContext."+sel.Sel.Name)
+		if next == nil {
+			break
+		}
+		fd = next
+	}
+	return fd
 }
